@@ -47,9 +47,9 @@ def plan(tier, seed):
     q = tier == "quick"
     for g in (1, 2):
         shards.append(dict(no=no, g=g, part="tables", idx=0)); no += 1
-        for i in range(12 if q else 150):
+        for i in range(12 if q else 600):
             shards.append(dict(no=no, g=g, part="points", idx=i)); no += 1
-        for i in range(6 if q else 60):
+        for i in range(6 if q else 300):
             shards.append(dict(no=no, g=g, part="hom", idx=i)); no += 1
     return shards
 
